@@ -5,15 +5,16 @@ set -u
 PATCH=$1; ID=$2; shift 2
 CHECKS=${*:-C01 C02 C03 C04 C05 C06 C07 C08 C09 C10 C11 C12 C13 C14 C15 C16 C17}
 export GOFLAGS=-mod=mod GOPROXY=off
-cd /repo || exit 2
-[ -z "$(git status --porcelain)" ] || { echo "/repo not clean"; exit 2; }
-S=$(mktemp -d /var/tmp/benign.XXXXXX); trap 'git -C /repo checkout -- . ; git -C /repo clean -fdq; rm -rf "$S"' EXIT
+R=${SEED_REPO:-/repo}; CV=${SEED_VERIF:-/verif}   # a worktree of /repo and a copy of /verif bound to it leave both alone
+cd $R || exit 2
+[ -z "$(git status --porcelain)" ] || { echo "$R not clean"; exit 2; }
+S=$(mktemp -d /var/tmp/benign.XXXXXX); trap 'git -C $R checkout -- . ; git -C $R clean -fdq; rm -rf "$S"' EXIT
 if git apply --check "$PATCH" 2>/dev/null; then git apply "$PATCH"; elif patch -p1 --dry-run -F3 -s < "$PATCH" >/dev/null 2>&1; then patch -p1 -F3 -s -i "$PATCH"; find . -name '*.orig' -delete; else echo "BENIGN $ID patch does not apply"; exit 2; fi
 TESTS=pass; go test -vet=off -count=1 ./... >$S/test.log 2>&1 || TESTS=fail
 TAGB=ok; go build -tags verif ./... >/dev/null 2>&1 || TAGB=hooks-do-not-compile
 RES=""
 for c in $CHECKS; do
-  (cd /verif && timeout 1500 ./check $c quick > $S/$c.log 2>&1); rc=$?
+  (cd $CV && VERIF_REPO=$R timeout 1500 ./check $c quick > $S/$c.log 2>&1); rc=$?
   if [ $rc -ne 0 ]; then
     cls=$(grep -E "^FAIL class=|harness" $S/$c.log | sed 's/ cases=.*//;s/FAIL class=//' | head -3 | tr '\n' ' ')
     RES="$RES $c=$rc[$cls]"
